@@ -5,10 +5,17 @@ from ..ctx import Ctx, Machinery
 
 def model_check(ctx):
     """Free exploration of App: the guards imply the invariants."""
-    r = tlc.run("mc/MC_App", "MC_App.cfg")
+    r = tlc.run("mc/MC_App", "MC_App.cfg", coverage=True)
     ctx.ev.add_tlc("MC_App (free exploration, invariants)", r)
     if not r.ok:
         raise Machinery("MC_App violates %s: the specification itself is inconsistent" % r.violated)
+    # vacuity guard (TLC -coverage): every action of App must have been taken in the free exploration
+    need = ["Start", "FileBegin", "ParseFail", "LevelBegin", "TmpNew", "TmpDel", "WritebackBegin", "WritebackEnd", "PassEnd", "LevelEnd",
+            "ScanError", "Announce", "FileEnd", "Exit"]
+    never = [a for a in need if not r.coverage.get(a)]
+    if never:
+        raise Machinery("MC_App never took the action(s) %s: the invariants were not exercised" % never)
+    ctx.ev.parts["MC_App_action_coverage"] = {a: r.coverage.get(a, 0) for a in need}
     return r
 
 
